@@ -26,8 +26,13 @@ theorem Trk.anyNotRemovable_iff (ts : List (Trk α S E P)) :
 
 theorem Trk.shouldBeRemoved_iff (d : TrkData α S E P) (children pending : List (Trk α S E P)) :
     Trk.shouldBeRemoved (.node d children pending) = true
-      ↔ d.marked = true ∧ (d.persist = true → d.sounds = []) ∧ ∀ c ∈ children, Trk.shouldBeRemoved c = true := by
+      ↔ d.marked = true ∧ (d.persist = true → d.sounds = [] ∧ d.pendingSounds = []) ∧ pending = []
+          ∧ ∀ c ∈ children, Trk.shouldBeRemoved c = true := by
   rw [Trk.shouldBeRemoved]
+  cases pending with
+  | cons p ps => simp
+  | nil =>
+  simp only [List.isEmpty_nil, Bool.not_true, Bool.false_eq_true, if_false, true_and]
   by_cases hany : Trk.anyNotRemovable children = true
   · simp only [hany, if_true]
     obtain ⟨c, hc, hcr⟩ := (Trk.anyNotRemovable_iff children).mp hany
@@ -47,15 +52,17 @@ theorem Trk.shouldBeRemoved_iff (d : TrkData α S E P) (children pending : List 
       exact ⟨fun h => ⟨h, fun e => e.elim, hall⟩, fun h => h.1⟩
 
 mutual
-/-- every track below `t` that the audio thread has inserted (transitively) -/
+/-- every track below `t`, transitively: the sub-tracks the audio thread has inserted and the ones
+    still waiting in a new-resource ring -/
 def Trk.descendants : Trk α S E P → List (Trk α S E P)
-  | .node _ children _ => Trk.descendantsList children
+  | .node _ children pending => Trk.descendantsList children ++ Trk.descendantsList pending
 def Trk.descendantsList : List (Trk α S E P) → List (Trk α S E P)
   | [] => []
   | t :: ts => t :: (Trk.descendants t ++ Trk.descendantsList ts)
 end
 
-/-- a removable track has only removable (hence marked: handle dropped) inserted descendants -/
+/-- a removable track has only removable (hence marked: handle dropped) descendants, and none of them
+    is waiting in a ring -/
 theorem Trk.removable_descendants (t : Trk α S E P) :
     Trk.shouldBeRemoved t = true → ∀ x ∈ Trk.descendants t, Trk.shouldBeRemoved x = true ∧ x.data.marked = true := by
   refine Trk.rec
@@ -64,8 +71,10 @@ theorem Trk.removable_descendants (t : Trk α S E P) :
     (motive_2 := fun ts => (∀ c ∈ ts, Trk.shouldBeRemoved c = true) →
       ∀ x ∈ Trk.descendantsList ts, Trk.shouldBeRemoved x = true ∧ x.data.marked = true) ?_ ?_ ?_ t
   · intro d children pending ihc _ h x hx
-    rw [Trk.descendants] at hx
-    exact ihc ((Trk.shouldBeRemoved_iff d children pending).mp h).2.2 x hx
+    obtain ⟨_, _, hp, hc⟩ := (Trk.shouldBeRemoved_iff d children pending).mp h
+    subst hp
+    rw [Trk.descendants, Trk.descendantsList, List.append_nil] at hx
+    exact ihc hc x hx
   · intro _ x hx; simp [Trk.descendantsList] at hx
   · intro t ts iht ihts h x hx
     rw [Trk.descendantsList] at hx
@@ -102,6 +111,28 @@ theorem Trk.onStartKept_ids (ts : List (Trk α S E P)) :
     · simp [h, ih]
     · simp [h, ih, Trk.onStart_id]
 
+theorem Trk.onStartKept_mem (ts : List (Trk α S E P)) (t : Trk α S E P) (ht : t ∈ ts)
+    (hr : Trk.shouldBeRemoved t = false) : Trk.onStart C t ∈ Trk.onStartKept C ts := by
+  induction ts with
+  | nil => cases ht
+  | cons u us ih =>
+    rw [Trk.onStartKept]
+    rcases List.mem_cons.mp ht with rfl | ht
+    · simp [hr]
+    · split
+      · exact ih ht
+      · exact List.mem_cons_of_mem _ (ih ht)
+
+theorem Trk.onStartList_mem (ts : List (Trk α S E P)) (t : Trk α S E P) (ht : t ∈ ts) :
+    Trk.onStart C t ∈ Trk.onStartList C ts := by
+  induction ts with
+  | nil => cases ht
+  | cons u us ih =>
+    rw [Trk.onStartList]
+    rcases List.mem_cons.mp ht with rfl | ht
+    · simp
+    · exact List.mem_cons_of_mem _ (ih ht)
+
 /-! ### the published state -/
 
 /-- the manager has not been stopped (tracks never call `stop`) -/
@@ -111,13 +142,15 @@ def Psm.Live (m : Psm α) : Prop :=
   | .stopped => False
   | _ => True
 
-/-- if the manager waits for a clock time, that clock exists -/
-def Psm.ClockOk (clock : Nat → Option (ClockInfo α)) (m : Psm α) : Prop :=
-  match m.state with
-  | .waitingToResume (.clockTime c _) _ => (clock c).isSome = true
-  | _ => True
+/-- the sound-level playback state a track state stands for (track.rs: `From<PlaybackState> for
+    TrackPlaybackState` read backwards) -/
+def TrackPlaybackState.toPlayback : TrackPlaybackState → PlaybackState
+  | .playing => .playing | .pausing => .pausing | .paused => .paused
+  | .waitingToResume => .waitingToResume | .resuming => .resuming
 
-theorem Psm.live_decodable (m : Psm α) (h : m.Live) : (decodeTrackState m.playbackState.toNat).isSome = true := by
+/-- the byte published by a live manager decodes to exactly the manager's state (no fallback arm) -/
+theorem Psm.live_decodable (m : Psm α) (h : m.Live) :
+    (decodeTrackState m.playbackState.toNat).toPlayback = m.playbackState := by
   unfold Psm.Live at h
   unfold Psm.playbackState
   cases hs : m.state <;> simp [hs] at h ⊢ <;> rfl
@@ -132,43 +165,35 @@ theorem Psm.resume_live (m : Psm α) (st : StartTime α) (tw : Tween α) (h : m.
   · exact h
   · cases st <;> simp [Psm.Live]
 
-/-- one update of a live manager whose awaited clock exists: still live, and the flag is raised
-    whenever the playback state changed -/
-theorem Psm.update_live (m : Psm α) (dt : α) (info : Info α) (h : m.Live) (hc : m.ClockOk info.clock) :
-    (m.update dt info).1.Live
-      ∧ ((m.update dt info).2 = false → (m.update dt info).1.playbackState = m.playbackState) := by
+/-- one update of a live manager, whatever clocks exist: it is live again after the track's
+    `Stopped → Paused` fallback; and when the flag is not raised it is live as it is and the playback
+    state has not changed -/
+theorem Psm.update_live (m : Psm α) (dt : α) (info : Info α) (h : m.Live) :
+    (Trk.pausedIfStopped (m.update dt info).1).Live
+      ∧ ((m.update dt info).2 = false →
+          (m.update dt info).1.Live ∧ (m.update dt info).1.playbackState = m.playbackState) := by
   unfold Psm.Live at h
-  unfold Psm.ClockOk at hc
   unfold Psm.update
   cases hs : m.state with
-  | playing => simp [Psm.Live, Psm.playbackState, hs]
-  | pausing => dsimp only; split <;> simp [Psm.Live, Psm.playbackState, hs]
-  | paused => simp [Psm.Live, Psm.playbackState, hs]
-  | resuming => dsimp only; split <;> simp [Psm.Live, Psm.playbackState, hs]
+  | playing => simp [Trk.pausedIfStopped, Psm.Live, Psm.playbackState, hs]
+  | pausing => dsimp only; split <;> simp [Trk.pausedIfStopped, Psm.Live, Psm.playbackState, hs]
+  | paused => simp [Trk.pausedIfStopped, Psm.Live, Psm.playbackState, hs]
+  | resuming => dsimp only; split <;> simp [Trk.pausedIfStopped, Psm.Live, Psm.playbackState, hs]
   | stopping => simp [hs] at h
   | stopped => simp [hs] at h
   | waitingToResume st fadeIn =>
     dsimp only
-    have hnever : (st.update dt info).2 = false := by
-      cases st with
-      | immediate => rfl
-      | delayed ns => simp only [StartTime.update]; split <;> rfl
-      | clockTime c t =>
-        simp only [hs] at hc
-        cases hcl : info.clock c with
-        | none => simp [hcl] at hc
-        | some ci =>
-          simp only [StartTime.update, Info.whenToStart, hcl]
-          by_cases hnow : (ci.ticking && ClockTime.ge ci.time t) = true <;> simp [hnow]
-    simp only [hnever, Bool.false_eq_true, if_false]
     split
-    · exact ⟨by simp [Psm.resume, Psm.isStopped, Psm.Live], by simp⟩
-    · simp [Psm.Live, Psm.playbackState, hs]
+    · simp [Trk.pausedIfStopped, Psm.markAsPaused, Psm.Live, Psm.playbackState]
+    · split
+      · simp [Trk.pausedIfStopped, Psm.resume, Psm.isStopped, Psm.Live, Psm.playbackState]
+      · simp [Trk.pausedIfStopped, Psm.Live, Psm.playbackState, hs]
 
 /-- a track's manager is live and the published byte is the manager's state -/
 def TrkData.Ok (d : TrkData α S E P) : Prop := d.psm.Live ∧ d.pubState = d.psm.playbackState.toNat
 
-theorem TrkData.ok_decodable (d : TrkData α S E P) (h : d.Ok) : (decodeTrackState d.pubState).isSome = true := by
+theorem TrkData.ok_decodable (d : TrkData α S E P) (h : d.Ok) :
+    (decodeTrackState d.pubState).toPlayback = d.psm.playbackState := by
   rw [h.2]; exact Psm.live_decodable d.psm h.1
 
 theorem Trk.readCommands_ok (d : TrkData α S E P) (h : d.Ok) : (Trk.readCommands d).Ok := by
@@ -179,14 +204,15 @@ theorem Trk.readCommands_ok (d : TrkData α S E P) (h : d.Ok) : (Trk.readCommand
   · exact ⟨Psm.pause_live _ _ h.1, rfl⟩
   · exact ⟨Psm.resume_live _ _ _ (Psm.pause_live _ _ h.1), rfl⟩
 
-theorem Trk.preUpdate_ok (dt : α) (info : Info α) (n : Nat) (d : TrkData α S E P) (h : d.Ok)
-    (hc : d.psm.ClockOk info.clock) : (Trk.preUpdate dt info n d).Ok := by
-  obtain ⟨h1, h2⟩ := Psm.update_live d.psm (dt * (KOps.ofNat n : α)) info h.1 hc
+theorem Trk.preUpdate_ok (dt : α) (info : Info α) (n : Nat) (d : TrkData α S E P) (h : d.Ok) :
+    (Trk.preUpdate dt info n d).Ok := by
+  obtain ⟨h1, h2⟩ := Psm.update_live d.psm (dt * (KOps.ofNat n : α)) info h.1
   unfold Trk.preUpdate Trk.publish; dsimp only
   split
   · exact ⟨h1, rfl⟩
   · rename_i hf
-    exact ⟨h1, by dsimp only; rw [h.2, h2 (by simpa using hf)]⟩
+    obtain ⟨h3, h4⟩ := h2 (by simpa using hf)
+    exact ⟨h3, by dsimp only; rw [h.2, h4]⟩
 
 mutual
 /-- every track of the tree (rings included) has a live manager and a faithful published state -/
@@ -195,15 +221,6 @@ def Trk.Ok : Trk α S E P → Prop
 def Trk.OkList : List (Trk α S E P) → Prop
   | [] => True
   | t :: ts => Trk.Ok t ∧ Trk.OkList ts
-end
-
-mutual
-/-- every inserted track that waits for a clock time waits for a clock that exists -/
-def Trk.ClocksOk (clock : Nat → Option (ClockInfo α)) : Trk α S E P → Prop
-  | .node d children _ => d.psm.ClockOk clock ∧ Trk.ClocksOkList clock children
-def Trk.ClocksOkList (clock : Nat → Option (ClockInfo α)) : List (Trk α S E P) → Prop
-  | [] => True
-  | t :: ts => Trk.ClocksOk clock t ∧ Trk.ClocksOkList clock ts
 end
 
 theorem Trk.okList_append (a b : List (Trk α S E P)) : Trk.OkList (a ++ b) ↔ Trk.OkList a ∧ Trk.OkList b := by
@@ -219,46 +236,36 @@ theorem Trk.okList_iff (ts : List (Trk α S E P)) : Trk.OkList ts ↔ ∀ t ∈ 
 theorem Trk.okList_reverse (a : List (Trk α S E P)) : Trk.OkList a.reverse ↔ Trk.OkList a := by
   simp [Trk.okList_iff]
 
-/-- a spatial track's `Info` differs from its parent's only in the listener part -/
-def Comps.SpKeepsClocks (C : Comps α S E P) : Prop := ∀ p i, (C.spInfo p i).clock = i.clock
-
-theorem Trk.trackInfo_clock (hsp : C.SpKeepsClocks) (d : TrkData α S E P) (pinfo : Info α) :
-    (Trk.trackInfo C d pinfo).clock = pinfo.clock := by
-  unfold Trk.trackInfo; cases d.spatial <;> simp [hsp _ _]
-
-/-- `Track::process` keeps the invariant, as long as awaited clocks exist -/
-theorem Trk.process_ok (hsp : C.SpKeepsClocks) (t : Trk α S E P) :
+/-- `Track::process` keeps the invariant — whatever clocks exist -/
+theorem Trk.process_ok (t : Trk α S E P) :
     ∀ (dt : α) (pinfo : Info α) (out : List (Frame α)) (sends : List (SendTrk α E)),
-      Trk.Ok t → Trk.ClocksOk pinfo.clock t → Trk.Ok (Trk.process C dt pinfo t out sends).1 := by
+      Trk.Ok t → Trk.Ok (Trk.process C dt pinfo t out sends).1 := by
   refine Trk.rec
     (motive_1 := fun t => ∀ (dt : α) (pinfo : Info α) (out : List (Frame α)) (sends : List (SendTrk α E)),
-      Trk.Ok t → Trk.ClocksOk pinfo.clock t → Trk.Ok (Trk.process C dt pinfo t out sends).1)
+      Trk.Ok t → Trk.Ok (Trk.process C dt pinfo t out sends).1)
     (motive_2 := fun ts => ∀ (dt : α) (info : Info α) (out temp : List (Frame α)) (sends : List (SendTrk α E)),
-      Trk.OkList ts → Trk.ClocksOkList info.clock ts →
-        Trk.OkList (Trk.processChildren C dt info ts out temp sends).1) ?_ ?_ ?_ t
-  · intro d children pending ihc _ dt pinfo out sends hok hcl
+      Trk.OkList ts → Trk.OkList (Trk.processChildren C dt info ts out temp sends).1) ?_ ?_ ?_ t
+  · intro d children pending ihc _ dt pinfo out sends hok
     obtain ⟨hd, hc, hp⟩ := hok
-    obtain ⟨hcd, hcc⟩ := hcl
-    have hclk := Trk.trackInfo_clock C hsp d pinfo
-    have hd2 := Trk.preUpdate_ok dt (Trk.trackInfo C d pinfo) out.length d hd (by rw [hclk]; exact hcd)
+    have hd2 := Trk.preUpdate_ok dt (Trk.trackInfo C d pinfo) out.length d hd
     rw [Trk.process]; dsimp only
     split
     · exact ⟨hd2, hc, hp⟩
     · unfold Trk.postChildren; dsimp only
-      exact ⟨hd2, ihc dt _ out _ sends hc (by rw [hclk]; exact hcc), hp⟩
-  · intro dt info out temp sends _ _; simp [Trk.processChildren, Trk.OkList]
-  · intro t ts iht ihts dt info out temp sends hok hcl
+      exact ⟨hd2, ihc dt _ out _ sends hc, hp⟩
+  · intro dt info out temp sends _; simp [Trk.processChildren, Trk.OkList]
+  · intro t ts iht ihts dt info out temp sends hok
     rw [Trk.processChildren]; dsimp only
-    exact ⟨iht dt info _ sends hok.1 hcl.1, ihts dt info _ _ _ hok.2 hcl.2⟩
+    exact ⟨iht dt info _ sends hok.1, ihts dt info _ _ _ hok.2⟩
 
-theorem Trk.processChildren_ok (hsp : C.SpKeepsClocks) (ts : List (Trk α S E P)) (dt : α) (info : Info α)
-    (out temp : List (Frame α)) (sends : List (SendTrk α E)) (hok : Trk.OkList ts)
-    (hcl : Trk.ClocksOkList info.clock ts) : Trk.OkList (Trk.processChildren C dt info ts out temp sends).1 := by
+theorem Trk.processChildren_ok (ts : List (Trk α S E P)) (dt : α) (info : Info α)
+    (out temp : List (Frame α)) (sends : List (SendTrk α E)) (hok : Trk.OkList ts) :
+    Trk.OkList (Trk.processChildren C dt info ts out temp sends).1 := by
   induction ts generalizing out temp sends with
   | nil => simp [Trk.processChildren, Trk.OkList]
   | cons t ts ih =>
     rw [Trk.processChildren]; dsimp only
-    exact ⟨Trk.process_ok C hsp t dt info _ sends hok.1 hcl.1, ih _ _ _ hok.2 hcl.2⟩
+    exact ⟨Trk.process_ok C t dt info _ sends hok.1, ih _ _ _ hok.2⟩
 
 theorem Trk.onStart_ok (t : Trk α S E P) : Trk.Ok t → Trk.Ok (Trk.onStart C t) := by
   refine Trk.rec (motive_1 := fun t => Trk.Ok t → Trk.Ok (Trk.onStart C t))
